@@ -795,6 +795,30 @@ Proof.
     by destruct (lift_reorder_like _ AGc a r0 a' gc_reorder_like HA H) as (?&?&_).
 Qed.
 
+(** the call as the driver dispatches it ([Driver3.run_aop']): a copy whose
+    source is the manager itself is [a_copy_same] (a second handle on the same
+    node, nothing computed); everything else is [run_aop] *)
+Lemma run_aop'_cases w m o :
+  run_aop' w m o = run_aop w o ∨ ∃ hu, o = ACopy m hu ∧ run_aop' w m o = a_copy_same hu.
+Proof.
+  destruct o; try (by left). cbn [run_aop']. destruct (decide (src = m)) as [->|?]; [|by left].
+  right. by exists hu.
+Qed.
+Lemma run_aop'_not_copy w m o : (∀ src hu, o ≠ ACopy src hu) → run_aop' w m o = run_aop w o.
+Proof. intros Hn. destruct o; try done. by destruct (Hn src hu). Qed.
+
+Lemma asafe_a_copy_same hu : asafe (a_copy_same hu).
+Proof. unfold a_copy_same. asafe. Qed.
+
+Theorem run_aop'_AInv w m o a r a' :
+  a_allowed o = true → is_anew o = false → AInv a → a_caller_ok a o →
+  run_aop' w m o a = (r, a') → AInv a' ∧ AKeep o a a'.
+Proof.
+  intros Ha Hn HA Hc H. destruct (run_aop'_cases w m o) as [E|(hu&->&E)]; rewrite E in H.
+  - by apply (run_aop_AInv w o a r a').
+  - apply AStep_AKeep; [done|]. by apply (asafe_a_copy_same hu a r a').
+Qed.
+
 (** ** 9. Histories *)
 Lemma AKeep_tape o a a' t : AKeep o a a' →
   AKeep o a (a' <| mgr := (mgr a') <| tape := t |> |>).
@@ -809,16 +833,68 @@ Proof.
 Qed.
 
 Lemma astep_spec w m o :
-  ∃ r a', run_aop w o (aworld_get w m) = (r, a') ∧ snd (astep w m o) = r ∧
+  ∃ r a', run_aop' w m o (aworld_get w m) = (r, a') ∧ snd (astep w m o) = r ∧
     aworld_get (fst (astep w m o)) m =
       match o with
       | ATape _ => a'
       | _ => a' <| mgr := (mgr a') <| tape := [] |> |>
       end.
 Proof.
-  unfold astep, aworld_get. destruct (run_aop w o (default empty_ast (w !! m))) as [r a'].
+  unfold astep, aworld_get. destruct (run_aop' w m o (default empty_ast (w !! m))) as [r a'].
   exists r, a'. split; [done|]. split; [done|]. cbn [fst]. unfold aworld.
   by rewrite lookup_insert.
+Qed.
+
+(** the copy of a live [Function] into its own manager: a NEW handle on the
+    SAME node; of the wrapped manager only the count of that node changes (and
+    [astep] empties the oracle tape, as after every call) *)
+Lemma a_copy_same_spec hu u a : AInv a → handles a !! hu = Some u →
+  a_copy_same hu a =
+    (Ok (VN (next_hid a)),
+     a <| mgr := bump u (mgr a) |> <| handles ::= <[next_hid a := u]> |>
+       <| next_hid := S (next_hid a) |>) ∧
+  handles a !! next_hid a = None ∧
+  ∃ c, refc (mgr a) !! absn u = Some c ∧ refc (bump u (mgr a)) !! absn u = Some (S c).
+Proof.
+  intros HA Hu. pose proof HA as (HI&_&_&Hv&Hf). unfold a_copy_same.
+  pose proof (node_of_run hu a) as N. rewrite Hu in N. rewrite (bind_ok _ _ _ _ _ N).
+  destruct (wrap u a) as [r a'] eqn:E.
+  destruct (wrap_spec u a r a' HA E) as [(_&->&->&_)|(Hnv&_&_)]; cycle 1.
+  { destruct Hnv. by apply (Hv hu). }
+  rewrite (bind_ok _ _ _ _ _ E). split; [done|]. split.
+  - destruct (handles a !! next_hid a) as [x|] eqn:Ex; [|done]. specialize (Hf _ _ Ex). lia.
+  - destruct (Hv hu u Hu) as [_ Hs]. apply elem_of_dom in Hs. rewrite <- (inv_ref _ HI) in Hs.
+    apply elem_of_dom in Hs as [c Hc]. exists c. split; [done|].
+    unfold bump. cbn. by rewrite lookup_alter, Hc.
+Qed.
+
+Theorem astep_copy_same w m hu u :
+  let a := aworld_get w m in
+  let a' := aworld_get (fst (astep w m (ACopy m hu))) m in
+  AInv a → handles a !! hu = Some u →
+  snd (astep w m (ACopy m hu)) = Ok (VN (next_hid a)) ∧
+  next_hid a ∉ dom (handles a) ∧
+  handles a' = <[next_hid a := u]> (handles a) ∧
+  next_hid a' = S (next_hid a) ∧
+  mgr a' = mgr a <| refc ::= alter S (absn u) |> <| tape := [] |> ∧
+  (succ (mgr a') = succ (mgr a) ∧ pred (mgr a') = pred (mgr a) ∧
+   ite_tab (mgr a') = ite_tab (mgr a) ∧ vars (mgr a') = vars (mgr a) ∧
+   lvl2var (mgr a') = lvl2var (mgr a) ∧ min_free (mgr a') = min_free (mgr a) ∧
+   roots (mgr a') = roots (mgr a)) ∧
+  (∃ c, refc (mgr a) !! absn u = Some c ∧ refc (mgr a') !! absn u = Some (S c)) ∧
+  (∀ n, n ≠ absn u → refc (mgr a') !! n = refc (mgr a) !! n) ∧
+  AInv a'.
+Proof.
+  intros a a' HA Hu. destruct (astep_spec w m (ACopy m hu)) as (r&a1&E&Er&Ea).
+  fold a in E. fold a' in Ea. cbn [run_aop'] in E. rewrite decide_True in E by done.
+  destruct (a_copy_same_spec hu u a HA Hu) as (E'&Hfresh&c&Hc&Hc').
+  rewrite E' in E. injection E as <- <-. rewrite Er, Ea.
+  split; [done|]. split; [by apply not_elem_of_dom|]. split; [done|]. split; [done|].
+  split; [done|]. split; [done|]. split; [by exists c|]. split.
+  - intros n Hn. cbn. by rewrite lookup_alter_ne.
+  - apply AInv_tape.
+    assert (S1 : asafe (a_copy_same hu)) by apply asafe_a_copy_same.
+    by apply (AStep_AInv a), (S1 a _ _ HA E').
 Qed.
 
 (** one call on manager [m] of a world *)
@@ -836,7 +912,7 @@ Proof.
       apply bool_decide_eq_true in Ha as [Hn1 Hn2].
       by destruct (new_spec w levels a r a' Hn1 Hn2 E) as (?&_).
     - destruct (Hpre eq_refl) as [HA Hc].
-      destruct (run_aop_AInv w o a r a' Ha Hn HA Hc E) as [? ?]. done. }
+      destruct (run_aop'_AInv w m o a r a' Ha Hn HA Hc E) as [? ?]. done. }
   destruct H as [HA' Hk].
   assert (H2 : AInv (a' <| mgr := (mgr a') <| tape := [] |> |>) ∧
                (is_anew o = false → AKeep o a (a' <| mgr := (mgr a') <| tape := [] |> |>))).
